@@ -150,11 +150,108 @@ def hooks(ctx: Ctx):
                    "RawPacketData has no class-level `pos` default: a reconstructed packet has no cursor at all")
 
 
+def emulate_value_pickle(ctx: Ctx, cname: str, defined):
+    """object.__reduce_ex__ for a subclass of a built-in, both protocol families:
+       protocols 0/1: copyreg._reconstructor(cls, base, base(obj)) = base.__new__(cls, value) - the class's own __new__ is
+                      NOT called - then state (custom __getstate__() or __dict__) via __setstate__ / __dict__.update;
+       protocols 2+ (also copy.copy / copy.deepcopy): cls.__new__(cls, *__getnewargs__()) then the same state step."""
+    prog = ctx.prog
+    if any(d in ("__reduce__", "__reduce_ex__", "__copy__", "__deepcopy__", "__getnewargs_ex__") for d in defined):
+        return None
+    targets = list(BASES) if cname == "_Parameter" else [cname]
+    for vc in targets:
+        base = BASES[vc]
+        nat = NATIVE[base]
+        val = VALUES[base][-2] if base != "float" else 2.5
+        raw = RAWS[base][-1]
+
+        def super_new(selfv, cls, value, *a, vc=vc, nat=nat):
+            return nat(value, cls=vc)
+        h = Harness(prog, {"super:__new__": super_new, "super:__getnewargs__": lambda selfv, nat=nat: (nat.__mro__[2](selfv),)})
+        obj = nat(val, cls=vc, raw_value=raw)
+        obj.attrs["__dict__"] = obj.attrs
+        try:
+            if prog.resolve_method(vc, "__getstate__") is not None:
+                k, state = h.outcome("o.__getstate__()", CM, o=obj)
+                if k != "ok":
+                    return (False, f"{vc}.__getstate__ raises {state}")
+            else:
+                state = {k2: v for k2, v in obj.attrs.items() if k2 != "__dict__"}
+            if prog.resolve_method(vc, "__getnewargs__") is not None:
+                k, args = h.outcome("o.__getnewargs__()", CM, o=obj)
+                if k != "ok":
+                    return (False, f"{vc}.__getnewargs__ raises {args}")
+            else:
+                args = (nat.__mro__[2](obj),)
+            newf = prog.resolve_method(vc, "__new__")
+            for proto, how in (("0/1", "base"), ("2+", "cls")):
+                if how == "base":
+                    new = nat(nat.__mro__[2](obj), cls=vc)
+                else:
+                    k, new = h.outcome("new(cls, *args)", CM, new=newf, cls=ClassRef(vc), args=tuple(args))
+                    if k != "ok":
+                        return (False, f"{vc}: reconstruction cls.__new__(cls, *{args!r}) raises {new}")
+                if isinstance(state, dict):
+                    if prog.resolve_method(vc, "__setstate__") is not None:
+                        h.outcome("n.__setstate__(s)", CM, n=new, s=state)
+                    else:
+                        new.attrs.update({k2: v for k2, v in state.items() if k2 != "__dict__"})
+                elif state is not None:
+                    return None
+                got_raw = new.attrs.get("raw_value", "<missing>")
+                if not (new == obj and repr(got_raw) == repr(raw)):
+                    return (False, f"pickling {vc}({val!r}, raw {raw!r}) with protocol {proto} gives value {nat.__mro__[2](new)!r} with raw_value "
+                                   f"{got_raw!r}: the custom {defined} hooks lose the raw value on that reconstruction path")
+        except Unsupported:
+            return None
+    return (True, f"custom hooks {defined} keep value and raw_value on both reconstruction paths (emulated)")
+
+
+def emulate_packet_copy(ctx: Ctx, defined):
+    """Custom __copy__/__deepcopy__ on CCSDSPacket: interpret it on a partially parsed model packet; a deep copy must
+    not share the raw_data object (and its cursor) with the original."""
+    import copy as _copy
+    prog = ctx.prog
+    from ..interp import DictObj
+    def bare_new(cls_, *a, **k):
+        o = DictObj(cls="CCSDSPacket")
+        o.attrs["__dict__"] = o.attrs
+        return o
+    h = Harness(prog, {"copy.deepcopy": _copy.deepcopy, "copy.copy": _copy.copy, "CCSDSPacket.__new__": bare_new, "id": id})
+    try:
+        p = DictObj(cls="CCSDSPacket", raw_data=BytesObj(b"\x00\x01\x02\x03", cls="RawPacketData", pos=16))
+        p["A"] = IntObj(5, cls="IntParameter", raw_value=5)
+        p.attrs["__dict__"] = p.attrs
+        if "__deepcopy__" in defined:
+            k, c = h.outcome("p.__deepcopy__({})", "packets.py", p=p)
+            if k != "ok":
+                return (False, f"CCSDSPacket.__deepcopy__ raises {c}")
+            r0, r1 = p.attrs.get("raw_data"), getattr(c, "attrs", {}).get("raw_data")
+            if r1 is None or r1 is r0:
+                return (False, "copy.deepcopy of a parsed packet shares the RawPacketData object with the original: advancing the "
+                               "cursor of one moves the other")
+            if bytes(r1) != bytes(r0) or r1.attrs.get("pos") != 16 or dict(c) != dict(p):
+                return (False, f"copy.deepcopy of a parsed packet differs: cursor {r1.attrs.get('pos')} items {dict(c)}")
+        if "__copy__" in defined:
+            k, c = h.outcome("p.__copy__()", "packets.py", p=p)
+            if k != "ok" or dict(c) != dict(p) or getattr(c, "attrs", {}).get("raw_data") is None:
+                return (False, "copy.copy of a parsed packet loses items or raw data")
+        return (True, "custom copy hooks keep items, raw bytes and an independent cursor (emulated)")
+    except Unsupported:
+        return None
+
+
 def emulate_copy(ctx: Ctx, cname: str, defined, slots):
     """copy/pickle protocol 2 on a model object: state = __getstate__() (or __dict__), new = cls.__new__(cls, *args),
     then __setstate__(state) or __dict__.update(state).  Returns (ok, why) or None when it cannot be emulated."""
     prog = ctx.prog
-    if slots or any(d in ("__reduce__", "__reduce_ex__", "__copy__", "__deepcopy__", "__getnewargs__", "__getnewargs_ex__") for d in defined):
+    if slots:
+        return None
+    if cname in BASES or cname == "_Parameter":
+        return emulate_value_pickle(ctx, cname, defined)
+    if cname == "CCSDSPacket" and all(d in ("__copy__", "__deepcopy__") for d in defined):
+        return emulate_packet_copy(ctx, defined)
+    if any(d in ("__reduce__", "__reduce_ex__", "__copy__", "__deepcopy__", "__getnewargs__", "__getnewargs_ex__") for d in defined):
         return None
     if cname != "RawPacketData":
         return None
@@ -257,6 +354,8 @@ def mutants(prog):
     sub(CM, "value class defines __eq__", r"(class FloatParameter\(_Parameter, float\):\n    \"\"\"A class to represent a float data item\.\"\"\"\n)",
         r"\1    def __eq__(self, other):\n        return abs(self - other) < 1e-9\n", "R20.4")
     sub("packets.py", "packet needs raw_data", r"def __init__\(self, \*args, raw_data: bytes = b\"\", \*\*kwargs\):", "def __init__(self, raw_data: bytes, *args, **kwargs):", "R20.3")
+    sub(CM, "getnewargs + empty state on the mixin", r"(        obj\.raw_value = raw_value if raw_value is not None else value\n        return obj\n)",
+        r"\1\n    def __getnewargs__(self):\n        return (super().__getnewargs__()[0], self.raw_value)\n\n    def __getstate__(self):\n        return None\n", "R20.3")
     sub("packets.py", "getstate drops class-level names", r"(    HEADER_LENGTH_BYTES = 6\n    pos = 0  # in bits\n)",
         r"\1\n    def __getstate__(self):\n        return {k: v for k, v in self.__dict__.items() if not hasattr(type(self), k)}\n", "R20.3")
     return out
